@@ -875,6 +875,104 @@ namespace NS2 {
     ctx.merge(l);
 }
 
+/// The precondition of the property is what the LIBRARY accepts (after seed C03-b1): requests
+/// and entity data that are just outside conformance are offered to schema-based validation;
+/// whatever it accepts counts as an environment, and strictly valid policies must then
+/// evaluate without type / attribute errors on it. (On a correct tree every probe is rejected.)
+fn acceptance_probes(ctx: &Ctx) {
+    const SCHEMA: &str = r#"
+entity User = { age: Long, nick?: String, tag?: String };
+entity Doc;
+action view appliesTo { principal: [User], resource: [Doc], context: { level: Long, note?: String, more?: Long } };
+"#;
+    let Ok((schema, _)) = cedar_policy::Schema::from_cedarschema_str(SCHEMA) else {
+        ctx.violation("gen:probe-schema-rejected", "probe schema rejected", json!({}));
+        return;
+    };
+    let validator = cedar_policy::Validator::new(schema.clone());
+    let pol_texts = [
+        "permit(principal, action, resource) when { context has extra && context.extra > 0 };",
+        "permit(principal, action, resource) when { context has note && context.note like \"a*\" };",
+        "permit(principal, action, resource) when { context has more && context.more > 0 };",
+        "permit(principal, action, resource) when { context.level > 0 };",
+        "permit(principal, action, resource) when { principal has extra && principal.extra > 0 };",
+        "permit(principal, action, resource) when { principal has nick && principal.nick like \"a*\" };",
+        "permit(principal, action, resource) when { principal.age > 0 };",
+    ];
+    let mut set = cedar_policy::PolicySet::new();
+    for (i, t) in pol_texts.iter().enumerate() {
+        match cedar_policy::Policy::parse(Some(cedar_policy::PolicyId::new(format!("probe{i}"))), *t) {
+            Ok(p) => {
+                let _ = set.add(p);
+            }
+            Err(e) => ctx.violation("gen:probe-policy-rejected", format!("{t}: {e}"), json!({})),
+        }
+    }
+    if validator.validate(&set, cedar_policy::ValidationMode::Strict).validation_errors().next().is_some() {
+        ctx.violation("gen:probe-policies-invalid", "probe policies are not strictly valid", json!({}));
+        return;
+    }
+    let good_ents = json!([{"uid": {"type": "User", "id": "a"}, "attrs": {"age": 3}, "parents": []}, {"uid": {"type": "Doc", "id": "d"}, "attrs": {}, "parents": []}]);
+    let ent_probes = vec![
+        json!([{"uid": {"type": "User", "id": "a"}, "attrs": {"age": 3, "extra": "x"}, "parents": []}, {"uid": {"type": "Doc", "id": "d"}, "attrs": {}, "parents": []}]),
+        json!([{"uid": {"type": "User", "id": "a"}, "attrs": {"age": 3, "nick": 7}, "parents": []}, {"uid": {"type": "Doc", "id": "d"}, "attrs": {}, "parents": []}]),
+        json!([{"uid": {"type": "User", "id": "a"}, "attrs": {"age": "3"}, "parents": []}, {"uid": {"type": "Doc", "id": "d"}, "attrs": {}, "parents": []}]),
+        json!([{"uid": {"type": "User", "id": "a"}, "attrs": {"age": 3, "nick": "al", "extra": "x"}, "parents": []}, {"uid": {"type": "Doc", "id": "d"}, "attrs": {}, "parents": []}]),
+        json!([{"uid": {"type": "User", "id": "a"}, "attrs": {"extra": 1, "other": 2}, "parents": []}, {"uid": {"type": "Doc", "id": "d"}, "attrs": {}, "parents": []}]),
+    ];
+    let ctx_probes = vec![
+        json!({"level": 1, "extra": "x"}),
+        json!({"level": 1, "extra": "x", "other": 1}),
+        json!({"level": 1, "note": 3}),
+        json!({"level": 1, "more": "m"}),
+        json!({"level": "1"}),
+        json!({"extra": 1}),
+        json!({"level": 1, "note": "n", "more": 1, "extra": "x"}),
+        json!({"level": 1, "note": "n", "extra": "x"}),
+    ];
+    let uid = |s: &str| cedar_policy::EntityUid::from_str(s).unwrap();
+    let auth = cedar_policy::Authorizer::new();
+    let mut l = Local::default();
+    // (entities, context) pairs: good entities x every context probe, every entity probe x a good context
+    let mut envs: Vec<(serde_json::Value, serde_json::Value, String)> = Vec::new();
+    for (i, c) in ctx_probes.iter().enumerate() {
+        envs.push((good_ents.clone(), c.clone(), format!("context-probe-{i}")));
+    }
+    for (i, e) in ent_probes.iter().enumerate() {
+        envs.push((e.clone(), json!({"level": 1}), format!("entity-probe-{i}")));
+    }
+    envs.push((good_ents.clone(), json!({"level": 1}), "control".into()));
+    for (ej, cj, name) in envs {
+        l.transitions += 2;
+        let ents = cedar_policy::Entities::from_json_value(ej.clone(), Some(&schema));
+        // the context through the typed constructor path (pairs), validated by Request::new
+        let c = cedar_policy::Context::from_json_value(cj.clone(), None);
+        let (Ok(ents), Ok(c)) = (ents, c) else {
+            l.case(hash_of(&("probe", &name)), "probe:rejected", name != "control");
+            if name == "control" {
+                ctx.violation("gen:probe-control-rejected", "the conformant control environment is rejected", json!({}));
+            }
+            continue;
+        };
+        let Ok(req) = cedar_policy::Request::new(uid("User::\"a\""), uid("Action::\"view\""), uid("Doc::\"d\""), c, Some(&schema)) else {
+            l.case(hash_of(&("probe", &name)), "probe:rejected", true);
+            continue;
+        };
+        l.case(hash_of(&("probe", &name)), if name == "control" { "probe:control" } else { "probe:accepted-by-the-library" }, true);
+        let r = auth.is_authorized(&req, &set, &ents);
+        l.transitions += 1;
+        let first_err: Option<String> = r.diagnostics().errors().next().map(|e| e.to_string());
+        if let Some(e) = first_err {
+            ctx.violation(
+                format!("soundness:environment-accepted-by-the-library:{}", name.split('-').next().unwrap_or("")),
+                format!("schema-based validation accepted environment `{name}` (context {cj}, entities {ej}) and a strictly valid policy then fails: {e}"),
+                json!({"context": cj, "entities": ej, "schema": SCHEMA, "policies": pol_texts}),
+            );
+        }
+    }
+    ctx.merge(l);
+}
+
 pub fn run(tier: Tier, replay_file: Option<&str>) -> i32 {
     if let Some(p) = replay_file {
         return replay(p);
@@ -936,6 +1034,7 @@ pub fn run(tier: Tier, replay_file: Option<&str>) -> i32 {
     });
     let _ = BTreeMap::<u8, u8>::new();
     cross_namespace_actions(&ctx);
+    acceptance_probes(&ctx);
     ctx.finish(
         "policies over the vocabulary of schema W: type-directed must-accept set (documented guard shapes), open guard shapes (guard x access x shape), all depth-1/2 operator applications over 41 typed atoms, other action scopes; every strictly accepted policy is evaluated on every conformant (request, store) of the small universe with a typed-AST walk; case = candidate policy, and (accepted policy, environment); all non-trivial",
         json!({"atoms": atoms().len(), "guards": guards().len(), "tier": tier.name()}),
